@@ -13,6 +13,7 @@ import KotoVerif.Lemmas.C14EqMaps
 import KotoVerif.Lemmas.C14MapIndex
 import KotoVerif.Lemmas.C14EqSymm
 import KotoVerif.Lemmas.C14KeyPER
+import KotoVerif.Lemmas.C14Hash
 import KotoVerif.Lemmas.C14DeepCopy
 import KotoVerif.Lemmas.C14DeepCopySnap
 
@@ -204,9 +205,23 @@ theorem index_assign_replaces {β : Type} (m : Val → Val → Bool) (i : Nat) (
     indexAssign m i k v es = some (replaceAt i k v es) :=
   indexAssign_ok m i k v es hok
 
-/-- … and when `k` *is* present at another index the code panics (finding F-C14-2 = F-C06-4);
-so `map_order_inv` covers index assignment only outside that case -/
-theorem index_assign_panic_witness :
+/-- `m[i] = (k, v)` as implemented since fix 6a9dccd (finding F-C14-2 = F-C06-4, fixed): for a valid
+index on a map with pairwise different keys it either raises "key already in use at index j" (j ≠ i,
+map untouched — exactly the case `replaceOk = false` of `map_order_inv`) or replaces entry `i` in
+place. It never reaches the `swap_indices` panic. -/
+theorem index_assign_total {β : Type} {m : Val → Val → Bool} (hm : KeyPER m) (i : Nat) (k : Val) (v : β)
+    (es : List (Val × β)) (hi : i < es.length) (hd : Distinct m (keys es)) :
+    (∃ j, j ≠ i ∧ indexAssignChecked m m i k v es = .keyInUse j ∧ replaceOk m i k (keys es) = false) ∨
+    (indexAssignChecked m m i k v es = .replaced (replaceAt i k v es) ∧ replaceOk m i k (keys es) = true) :=
+  indexAssignChecked_total hm i k v es hi hd
+
+/-- the former panic witness `m = {a: 1, b: 2, c: 3}; m[0] = ('c', 9)` is now the error case … -/
+theorem index_assign_error_witness :
+    indexAssignChecked (keyEq Equal.F0) (keyEq Equal.F0) 0 (.str [99]) (9 : Nat)
+      [(.str [97], 1), (.str [98], 2), (.str [99], 3)] = .keyInUse 2 := by rfl
+
+/-- … while the unchecked three calls alone would still panic there (why the check is needed) -/
+theorem index_assign_unchecked_witness :
     indexAssign (keyEq Equal.F0) 0 (.str [99]) (9 : Nat)
       [(.str [97], 1), (.str [98], 2), (.str [99], 3)] = none := by decide
 
@@ -223,34 +238,42 @@ theorem key_identity {m : Val → Val → Bool} (hm : KeyPER m) (k k' : Val) (hk
   · intro h es
     exact findIdx_congr m m k k' es (fun e _ => per_same_verdict hm k k' e.1 h)
 
-/-- on keys that hash consistently the hashed `IndexMap` lookup is the spec lookup -/
-theorem key_lookup_mechanism {β : Type} (F : FloatOps) (k : Val) (es : List (Val × β))
-    (hc : ∀ e ∈ es, keyEq F k e.1 = true → hashEq k e.1 = true) :
-    lookupBy (getMatch F es.length) k es = lookupBy (keyEq F) k es :=
-  getMatch_lookup_eq_spec F k es hc
+/-- equal keys hash equally (finding F-C14-1, fixed by 7e76332: `KNumber` hashes its `f64` value,
+written as an integer when integral). `HashLaws F` are the three facts about doubles this needs. -/
+theorem key_hash_consistent {F : FloatOps} (hH : HashLaws F) (a b : Val) (h : keyEq F a b = true) :
+    hashEq F a b = true :=
+  keyEq_hashEq hH a b h
 
-/-- the mechanism as implemented (finding F-C14-1): `1` and `1.0` are equal keys that are written
-differently to the hasher; a one-entry map finds the entry, a larger one does not, and inserting
-`1.0` next to `1` creates two equal keys — the negation of `key_identity`/`map_order_inv` at the
-mechanism level -/
-theorem key_hash_witness (F : FloatOps) (h1 : F.eq (F.ofInt 1) 0x3FF0000000000000 = true)
-    (h1' : F.eq 0x3FF0000000000000 (F.ofInt 1) = true) (v w : Nat) :
-    keyEq F (.num (.i 1)) (.num (.f 0x3FF0000000000000)) = true ∧
-    hashEq (.num (.i 1)) (.num (.f 0x3FF0000000000000)) = false ∧
-    lookupBy (getMatch F 1) (.num (.f 0x3FF0000000000000)) [(.num (.i 1), v)] = some v ∧
-    lookupBy (getMatch F 2) (.num (.f 0x3FF0000000000000)) [(.num (.i 1), v), (.str [97], w)] = none ∧
-    keys (OMap.insert (keyEqH F) (.num (.f 0x3FF0000000000000)) w [(.num (.i 1), v)]).1
-      = [.num (.i 1), .num (.f 0x3FF0000000000000)] := by
-  have hk : keyEq F (.num (.i 1)) (.num (.f 0x3FF0000000000000)) = true := by simpa [keyEq, Num.eq, Num.toF] using h1
-  have hh : hashEq (.num (.i 1)) (.num (.f 0x3FF0000000000000)) = false := by decide
-  have hh' : hashEq (.num (.f 0x3FF0000000000000)) (.num (.i 1)) = false := by decide
-  have hs : keyEq F (.num (.f 0x3FF0000000000000)) (.str [97]) = false := by simp [keyEq]
-  refine ⟨hk, hh, ?_, ?_, ?_⟩
-  · have : keyEq F (.num (.f 0x3FF0000000000000)) (.num (.i 1)) = true := by
-      simpa [keyEq, Num.eq, Num.toF] using h1'
-    simp [lookupBy, getMatch, this]
-  · simp [lookupBy, getMatch, keyEqH, hh', hs]
-  · simp [OMap.insert, keyEqH, hh', keys]
+/-- hence the hashed `IndexMap` probe is the spec lookup for *all* keys and map sizes … -/
+theorem key_lookup_mechanism {β : Type} {F : FloatOps} (hH : HashLaws F) (k : Val) (es : List (Val × β))
+    (n : Nat) : lookupBy (getMatch F n) k es = lookupBy (keyEq F) k es := by
+  rw [getMatch_eq_keyEq hH]
+
+/-- … and every map operation of the mechanism model (hash first) is the spec-level operation, so
+`map_order_inv`, `key_identity` and `index_assign_total` speak about the mechanism as well -/
+theorem mechanism_is_spec {F : FloatOps} (hH : HashLaws F) (self : HVal) (op : MOp)
+    (es : List (Val × HVal)) : applyM F true self op es = applyM F false self op es := by
+  have h1 : ∀ n, getM F true n = getM F false n := by
+    intro n; simp [getM, getMatch_eq_keyEq hH]
+  have h2 : insM F true = insM F false := by
+    funext a b; simp [insM, keyEqH_eq_keyEq hH]
+  unfold applyM
+  simp only [h1, h2]
+
+/-- the former witness of F-C14-1: `1` and `1.0` are equal keys and are now written identically to
+the hasher, so maps of every size find the entry and inserting `1.0` next to `1` overwrites -/
+theorem key_hash_witness_fixed (F : FloatOps) (hH : HashLaws F)
+    (h1 : F.eq 0x3FF0000000000000 (F.ofInt 1) = true) (v w : Nat) :
+    hashEq F (.num (.f 0x3FF0000000000000)) (.num (.i 1)) = true ∧
+    lookupBy (getMatch F 2) (.num (.f 0x3FF0000000000000)) [(.num (.i 1), v), (.str [97], w)] = some v ∧
+    keys (OMap.insert (keyEqH F) (.num (.f 0x3FF0000000000000)) w [(.num (.i 1), v)]).1 = [.num (.i 1)] := by
+  have hk : keyEq F (.num (.f 0x3FF0000000000000)) (.num (.i 1)) = true := by
+    simpa [keyEq, Num.eq, Num.toF] using h1
+  refine ⟨keyEq_hashEq hH _ _ hk, ?_, ?_⟩
+  · rw [getMatch_eq_keyEq hH]; simp [lookupBy, hk]
+  · simp [OMap.insert, keyEqH_eq_keyEq hH, hk, keys]
+
+example : HashLaws Equal.F0 := F0_hashLaws
 
 /-! ## sorting -/
 
